@@ -14,7 +14,8 @@ pressure and the two states:
   (b) the shock helpers satisfy the three jump conditions for every star pressure, the star
       pressure equations are the contact condition (C02 rules, re-run here), each helper call in
       the driver gets a one-sided state, and the wave-speed table uses u -+ a of one state with the
-      sign of its family and is mirror-consistent (C09 rules, re-run here);
+      sign of its family and is mirror-consistent, and every helper that picks the sign of its family by
+      recognising the left state compares pressure, density and velocity (C09 rules, re-run here);
   (c) at  xi = u -+ a  the fan returns the undisturbed state; at  xi = u* -+ a*  (star velocity
       from the rarefaction relation, star density rho_star_rarefaction, a* = sound_speed of them)
       it returns (rho*, p*, u*), for every star pressure.
@@ -163,6 +164,7 @@ def reuse(model, res):
                          why='the wave is then not the one whose local conditions were decided')
     tmp9 = Result('C09')
     c09.region_table_mirror(model, tmp9)
+    c09.side_tests(model, tmp9)          # which family sign a helper applies: decided by comparing p, rho AND u with the stored state
     for t in (tmp, tmp9):
         res.obligations += t.obligations
         res.discharged += t.discharged
